@@ -482,8 +482,12 @@ func (c13) Run(c *Case, st *Stats) []Violation {
 			key := fmt.Sprintf("%s|#%d", n, i)
 			r := runPipe(PipeOpts{SimOpts: SimOpts{Policy: simrt.PolicySpec{Name: "fifo"}}}, [][]*asset.Snapshot{windowed[n]},
 				func(in []<-chan *asset.Snapshot) []<-chan F {
-					a, o := strategy.ComputeWithOutcome(makeBtStrategy(sp), in[0])
-					return []<-chan F{helper.Map(a, func(x strategy.Action) F { return F(x) }), o}
+					// "evaluating that strategy directly": its own Compute on the snapshots, and the
+					// outcome of following exactly those actions at the closing prices
+					snaps := helper.Duplicate(in[0], 2)
+					acts := helper.Duplicate(makeBtStrategy(sp).Compute(snaps[0]), 2)
+					o := strategy.Outcome(asset.SnapshotsAsClosings(snaps[1]), acts[1])
+					return []<-chan F{helper.Map(acts[0], func(x strategy.Action) F { return F(x) }), o}
 				})
 			st.noteSim(&r.SimOut)
 			if r.Err != nil || !r.Built || !allTrue(r.Closed) {
